@@ -4,8 +4,10 @@
       so only the MARGIN h2h a c - h2h c a is invariant under expand_tied_ballot /
       resolve_profile_ties (the individual counts are refuted);
    2. first_place_votes / borda_scores of the resolved PROFILE: they depend on [cands p'], which
-      resolve_profile_ties infers from the positive-weight ballots; invariant when the candidate set
-      is unchanged, refuted otherwise;
+      resolve_profile_ties takes over from the tied profile (library fix "resolve_profile_ties keeps
+      the profile's candidate list"; only an EMPTY list is re-inferred from the positive-weight
+      ballots, and then no score dictionary of the tied profile exists unless it has no ballot):
+      invariant, without premise on the candidates;
    3. the score dictionaries of a remove_cand output have no removed candidate as key;
    4. per ballot: completing to a fixed candidate list commutes with the expansion as far as
       positional scores go; add_missing_ballot keeps the scores of the listed candidates, the
@@ -316,9 +318,8 @@ Theorem resolve_completed_scores : forall v (p p' q q' : profile),
   score_of v (ballots q') c == score_of v (ballots q) c.
 Proof.
   intros v p p' q q' Hres Hperm Hnd Hq Hq'.
-  destruct (resolve_ok cand ceqb ceqb_spec p p' Hres) as (bss & HF & Hb & Hc & _).
-  assert (Hcs' : NoDup (cands p')) by (rewrite Hc; apply (Lib_sets.dedup_NoDup cand ceqb ceqb_spec)).
-  assert (Hcs : NoDup (cands p)) by (eapply Permutation_NoDup; eassumption).
+  destruct (resolve_ok cand ceqb ceqb_spec p p' Hres) as (bss & HF & Hb & _).
+  destruct (resolve_cands_NoDup cand ceqb ceqb_spec p p' Hres) as [Hcs Hcs'].
   assert (Hun : Forall (fun b' => nodup_groups (rk b')) (concat bss)) by (apply (expand_all_untied cand _ _ HF)).
   assert (Hnd' : Forall (fun b' => nodup_groups (rk b')) (ballots p')).
   { rewrite Hb. apply (condense_bs_Forall cand ceqb (fun r _ => nodup_groups r)). exact Hun. }
@@ -340,7 +341,7 @@ Proof.
   intros f cs c q H. apply in_map_iff in H. destruct H as (x & E & _). injection E as -> <-. reflexivity.
 Qed.
 
-Theorem resolve_score_rankings : forall (p p' : profile),
+Theorem resolve_score_rankings_perm : forall (p p' : profile),
   resolve_profile_ties p = inl p' -> Permutation (cands p') (cands p) ->
   Forall (fun b => Forall (@NoDup cand) (rk b)) (ballots p) ->
   forall v d d', score_rankings p v = inl d -> score_rankings p' v = inl d' -> same_scores d d'.
@@ -355,7 +356,7 @@ Proof.
     apply (resolve_completed_scores c _ p p' q q' Hres Hperm Hnd Hq Hq').
 Qed.
 
-Theorem resolve_scores_invariant : forall (p p' : profile),
+Theorem resolve_scores_invariant_perm : forall (p p' : profile),
   resolve_profile_ties p = inl p' -> Permutation (cands p') (cands p) ->
   Forall (fun b => Forall (@NoDup cand) (rk b)) (ballots p) ->
   (forall d d', first_place_votes p = inl d -> first_place_votes p' = inl d' -> same_scores d d') /\
@@ -363,7 +364,7 @@ Theorem resolve_scores_invariant : forall (p p' : profile),
 Proof.
   intros p p' Hres Hperm Hnd. unfold Core.first_place_votes, Core.borda_scores.
   rewrite (Permutation_length Hperm).
-  split; intros d d' Hd Hd'; eapply resolve_score_rankings; eassumption.
+  split; intros d d' Hd Hd'; eapply resolve_score_rankings_perm; eassumption.
 Qed.
 
 (* on well-formed profiles both sides are defined: the resolved profile is well-formed again *)
@@ -381,37 +382,167 @@ Proof.
     eapply Permutation_in; [apply Permutation_sym; exact Hp|exact Hx].
 Qed.
 
-Theorem resolve_wf : forall (p p' : profile), wf_profile cand p ->
+Theorem resolve_wf_perm : forall (p p' : profile), wf_profile cand p ->
   resolve_profile_ties p = inl p' -> Permutation (cands p') (cands p) -> wf_profile cand p'.
 Proof.
   intros p p' [Hcs Hwf] Hres Hperm.
-  destruct (resolve_ok cand ceqb ceqb_spec p p' Hres) as (bss & HF & Hb & Hc & _). split.
-  - rewrite Hc. apply (Lib_sets.dedup_NoDup cand ceqb ceqb_spec).
+  destruct (resolve_ok cand ceqb ceqb_spec p p' Hres) as (bss & HF & Hb & _). split.
+  - exact (proj2 (resolve_cands_NoDup cand ceqb ceqb_spec p p' Hres)).
   - rewrite Hb. apply (condense_bs_Forall cand ceqb (fun r _ => wf_ranking cand (cands p') r)).
-    clear Hb Hc Hres. induction HF as [|b e bs bss Hbe _ IH]; [constructor|].
+    clear Hb Hres. induction HF as [|b e bs bss Hbe _ IH]; [constructor|].
     inversion Hwf as [|b0 bs0 Hb0 Hbs0]; subst b0 bs0. cbn [concat]. apply Forall_app. split; [|apply IH; exact Hbs0].
     destruct (expand_tied_ballot_ok cand b e Hbe) as (_ & Hrk & _). apply Forall_forall. intros b' Hb'.
     assert (Hin : In (rk b') (expand_ranking (rk b))) by (rewrite <- Hrk; apply in_map; exact Hb').
     apply (expand_ranking_spec cand) in Hin. exact (refinement_wf _ _ _ _ Hperm Hb0 Hin).
 Qed.
 
-Theorem resolve_scores_defined : forall (p p' : profile), wf_profile cand p ->
+Theorem resolve_scores_defined_perm : forall (p p' : profile), wf_profile cand p ->
   resolve_profile_ties p = inl p' -> Permutation (cands p') (cands p) ->
   forall v d, score_rankings p v = inl d -> exists d', score_rankings p' v = inl d'.
 Proof.
   intros p p' Hwf Hres Hperm v d Hd.
   destruct (score_rankings_inv cand ceqb p v d Hd) as (_ & Hv & _).
-  exact (score_rankings_succeeds cand ceqb ceqb_spec p' v (resolve_wf p p' Hwf Hres Hperm) Hv).
+  exact (score_rankings_succeeds cand ceqb ceqb_spec p' v (resolve_wf_perm p p' Hwf Hres Hperm) Hv).
 Qed.
 
-Theorem resolve_fpv_borda_defined : forall (p p' : profile), wf_profile cand p ->
+Theorem resolve_fpv_borda_defined_perm : forall (p p' : profile), wf_profile cand p ->
   resolve_profile_ties p = inl p' -> Permutation (cands p') (cands p) ->
   (forall d, first_place_votes p = inl d -> exists d', first_place_votes p' = inl d') /\
   (forall d, borda_scores p = inl d -> exists d', borda_scores p' = inl d').
 Proof.
   intros p p' Hwf Hres Hperm. unfold Core.first_place_votes, Core.borda_scores.
   rewrite (Permutation_length Hperm).
-  split; intros d Hd; eapply resolve_scores_defined; eassumption.
+  split; intros d Hd; eapply resolve_scores_defined_perm; eassumption.
+Qed.
+
+(* ---------- the candidate list of the resolved profile ---------- *)
+
+Lemma acc_add_not_nil : forall (acc : list ballot) b, acc_add cand ceqb acc b <> [].
+Proof.
+  intros [|k acc] b; cbn [Core.acc_add]; [discriminate|]. destruct (key_match cand ceqb k b); discriminate.
+Qed.
+
+Lemma condense_bs_nil_inv : forall bs : list ballot, condense_bs bs = [] -> bs = [].
+Proof.
+  intros bs. unfold Core.condense_bs.
+  assert (G : forall (l acc : list ballot), fold_left (acc_add cand ceqb) l acc = [] -> acc = [] /\ l = []).
+  { induction l as [|b l IH]; intros acc H; cbn [fold_left] in H; [split; [exact H|reflexivity]|].
+    destruct (IH _ H) as [Hacc _]. exfalso. exact (acc_add_not_nil acc b Hacc). }
+  intros H. exact (proj2 (G bs [] H)).
+Qed.
+
+(* no ballot at all: nothing to infer *)
+Lemma resolve_no_ballots : forall (p p' : profile),
+  resolve_profile_ties p = inl p' -> ballots p = [] -> cands p' = cands p /\ ballots p' = [].
+Proof.
+  intros p p' Hres Hb0. destruct (resolve_ok cand ceqb ceqb_spec p p' Hres) as (bss & HF & Hb & Hc & _).
+  rewrite Hb0 in HF. inversion HF; subst bss. split; [|exact Hb].
+  rewrite Hc. destruct (cands p); reflexivity.
+Qed.
+
+(* with an EMPTY candidate list a scoring call succeeds only on a profile without ballots: a ballot
+   must rank somebody, and nobody is a known candidate *)
+Lemma scored_no_cands : forall (p : profile) v d,
+  cands p = [] -> score_rankings p v = inl d -> ballots p = [].
+Proof.
+  intros p v d Hc Hd.
+  destruct (score_rankings_inv cand ceqb p v d Hd) as (q & _ & Hq & Hne & Hk & _).
+  pose proof (add_missing_cands cand ceqb p q Hq) as Hcq. rewrite Hcq, Hc in Hk.
+  unfold Core.add_missing in Hq.
+  destruct (rmap (add_missing_ballot (cands p)) (ballots p)) as [bs'|e] eqn:E; cbn [rbind] in Hq; [|discriminate].
+  unfold ok in Hq. injection Hq as <-. cbn [ballots] in Hne, Hk. apply Lib_rk.rmap_ok_inv in E.
+  destruct (condense_bs bs') as [|k ks] eqn:Ek.
+  - apply condense_bs_nil_inv in Ek. subst bs'. inversion E. reflexivity.
+  - exfalso.
+    assert (Hin : In k (condense_bs bs')) by (rewrite Ek; left; reflexivity).
+    destruct (condense_bs_origin cand ceqb bs' k Hin) as (b' & Hb' & Hrk & _).
+    destruct (Forall2_in_r _ _ _ _ E Hb') as (b & _ & Hbb').
+    destruct (C12_edit.add_missing_ballot_ok cand ceqb _ b b' Hbb') as (Hbne & Hrk' & _).
+    assert (Hkne : rk k <> []).
+    { rewrite Hrk, Hrk'. unfold EditSpec.with_missing. intros H0. apply app_eq_nil in H0. exact (Hbne (proj1 H0)). }
+    cbn [existsb] in Hne. apply orb_false_iff in Hne. destruct Hne as [Hne _].
+    unfold Core.all_known in Hk. cbn [forallb] in Hk. apply andb_true_iff in Hk. destruct Hk as [Hk _].
+    destruct (rk k) as [|g r]; [exact (Hkne eq_refl)|].
+    cbn [existsb] in Hne. apply orb_false_iff in Hne. destruct Hne as [Hg _].
+    destruct g as [|x g]; [discriminate Hg|].
+    apply (Lib_sets.subsetb_incl cand ceqb ceqb_spec) in Hk.
+    exact (Hk x (or_introl eq_refl)).
+Qed.
+
+Lemma wf_no_cands : forall p : profile, cands p = [] -> wf_profile cand p -> ballots p = [].
+Proof.
+  intros p Hc [_ Hwf]. destruct (ballots p) as [|b bs]; [reflexivity|]. exfalso.
+  inversion Hwf as [|b0 bs0 (Hne & Hg & _ & Hin) _]; subst b0 bs0. rewrite Hc in Hin.
+  destruct (rk b) as [|g r]; [exact (Hne eq_refl)|].
+  inversion Hg as [|g0 r0 Hg0 _]; subst g0 r0. destruct g as [|x g]; [exact (Hg0 eq_refl)|].
+  exact (Hin x (or_introl eq_refl)).
+Qed.
+
+(* the candidate list is kept: whenever it is non-empty, and also whenever the tied profile can be
+   scored or is well-formed *)
+Theorem resolve_cands_scored : forall (p p' : profile) v d,
+  resolve_profile_ties p = inl p' -> score_rankings p v = inl d -> cands p' = cands p.
+Proof.
+  intros p p' v d Hres Hd. destruct (cands p) as [|x cs] eqn:Ec.
+  - rewrite <- Ec. apply (resolve_no_ballots p p' Hres). exact (scored_no_cands p v d Ec Hd).
+  - rewrite <- Ec. apply (resolve_keeps_candidates cand ceqb ceqb_spec p p' Hres). rewrite Ec. discriminate.
+Qed.
+
+Theorem resolve_cands_wf : forall (p p' : profile), wf_profile cand p ->
+  resolve_profile_ties p = inl p' -> cands p' = cands p.
+Proof.
+  intros p p' Hwf Hres. destruct (cands p) as [|x cs] eqn:Ec.
+  - rewrite <- Ec. apply (resolve_no_ballots p p' Hres). exact (wf_no_cands p Ec Hwf).
+  - rewrite <- Ec. apply (resolve_keeps_candidates cand ceqb ceqb_spec p p' Hres). rewrite Ec. discriminate.
+Qed.
+
+Lemma eq_perm : forall (l l' : list cand), l' = l -> Permutation l' l.
+Proof. intros l l' ->. apply Permutation_refl. Qed.
+
+(* the invariance theorems without premise on the candidates *)
+Theorem resolve_score_rankings : forall (p p' : profile),
+  resolve_profile_ties p = inl p' ->
+  Forall (fun b => Forall (@NoDup cand) (rk b)) (ballots p) ->
+  forall v d d', score_rankings p v = inl d -> score_rankings p' v = inl d' -> same_scores d d'.
+Proof.
+  intros p p' Hres Hnd v d d' Hd Hd'.
+  exact (resolve_score_rankings_perm p p' Hres (eq_perm _ _ (resolve_cands_scored p p' v d Hres Hd)) Hnd v d d' Hd Hd').
+Qed.
+
+Theorem resolve_scores_invariant : forall (p p' : profile),
+  resolve_profile_ties p = inl p' ->
+  Forall (fun b => Forall (@NoDup cand) (rk b)) (ballots p) ->
+  (forall d d', first_place_votes p = inl d -> first_place_votes p' = inl d' -> same_scores d d') /\
+  (forall d d', borda_scores p = inl d -> borda_scores p' = inl d' -> same_scores d d').
+Proof.
+  intros p p' Hres Hnd. split; intros d d' Hd Hd'.
+  - exact (proj1 (resolve_scores_invariant_perm p p' Hres
+             (eq_perm _ _ (resolve_cands_scored p p' _ d Hres Hd)) Hnd) d d' Hd Hd').
+  - exact (proj2 (resolve_scores_invariant_perm p p' Hres
+             (eq_perm _ _ (resolve_cands_scored p p' _ d Hres Hd)) Hnd) d d' Hd Hd').
+Qed.
+
+Theorem resolve_wf : forall (p p' : profile), wf_profile cand p ->
+  resolve_profile_ties p = inl p' -> wf_profile cand p'.
+Proof.
+  intros p p' Hwf Hres. exact (resolve_wf_perm p p' Hwf Hres (eq_perm _ _ (resolve_cands_wf p p' Hwf Hres))).
+Qed.
+
+Theorem resolve_scores_defined : forall (p p' : profile), wf_profile cand p ->
+  resolve_profile_ties p = inl p' ->
+  forall v d, score_rankings p v = inl d -> exists d', score_rankings p' v = inl d'.
+Proof.
+  intros p p' Hwf Hres.
+  exact (resolve_scores_defined_perm p p' Hwf Hres (eq_perm _ _ (resolve_cands_wf p p' Hwf Hres))).
+Qed.
+
+Theorem resolve_fpv_borda_defined : forall (p p' : profile), wf_profile cand p ->
+  resolve_profile_ties p = inl p' ->
+  (forall d, first_place_votes p = inl d -> exists d', first_place_votes p' = inl d') /\
+  (forall d, borda_scores p = inl d -> exists d', borda_scores p' = inl d').
+Proof.
+  intros p p' Hwf Hres.
+  exact (resolve_fpv_borda_defined_perm p p' Hwf Hres (eq_perm _ _ (resolve_cands_wf p p' Hwf Hres))).
 Qed.
 
 (* per ballot, for the statement file: completing the expansion of b = completing b *)
@@ -470,6 +601,93 @@ Proof.
   apply in_map_iff in Hg. destruct Hg as (b & <- & Hb). exists b. split; [exact Hb|].
   destruct (Qlt_bool 0 (wt b)); [|destruct Hc]. unfold Core.ballot_cands in Hc.
   apply in_app_or in Hc. exact Hc.
+Qed.
+
+(* ---------- resolve_profile_ties on an EMPTY candidate list: what is inferred ---------- *)
+
+Lemma cast_cands_iff : forall (bs : list ballot) c, In c (cast_cands cand ceqb bs) <->
+  exists b, In b bs /\ 0 < wt b /\ (In c (flat (rk b)) \/ In c (map fst (sc b))).
+Proof.
+  intros bs c. unfold Core.cast_cands. rewrite (Lib_sets.dedup_In cand ceqb ceqb_spec), Lib_sets.in_concat_iff. split.
+  - intros (g & Hg & Hc). apply in_map_iff in Hg. destruct Hg as (b & <- & Hb). exists b. split; [exact Hb|].
+    destruct (Qlt_bool 0 (wt b)) eqn:E; [|destruct Hc]. split; [apply Lib_rk.Qlt_bool_iff; exact E|].
+    unfold Core.ballot_cands in Hc. apply in_app_or in Hc. exact Hc.
+  - intros (b & Hb & Hw & Hc). exists (if Qlt_bool 0 (wt b) then ballot_cands cand b else []). split.
+    + apply in_map_iff. exists b. split; [reflexivity|exact Hb].
+    + rewrite (proj2 (Lib_rk.Qlt_bool_iff 0 (wt b)) Hw). unfold Core.ballot_cands. apply in_or_app. exact Hc.
+Qed.
+
+Definition untied (r : ranking) : Prop := Forall (fun g => length g = 1%nat) r.
+
+Lemma untied_forallb : forall r : ranking,
+  forallb (fun s => Nat.eqb (length s) 1) r = true <-> untied r.
+Proof.
+  intros r. unfold untied. rewrite forallb_forall, Forall_forall. split; intros H g Hg.
+  - apply Nat.eqb_eq. exact (H g Hg).
+  - apply Nat.eqb_eq. exact (H g Hg).
+Qed.
+
+(* what one ballot contributes to the inferred candidates: its ranked candidates when its weight is
+   positive, and the keys of its score dictionary too when it has no tie (it is then passed on as it
+   is; the expansions of a tied ballot carry no scores) *)
+Lemma expand_cast : forall (b : ballot) e c, expand_tied_ballot b = inl e ->
+  ((exists b', In b' e /\ 0 < wt b' /\ (In c (flat (rk b')) \/ In c (map fst (sc b')))) <->
+   (0 < wt b /\ (In c (flat (rk b)) \/ (untied (rk b) /\ In c (map fst (sc b)))))).
+Proof.
+  intros b e c H. unfold Core.expand_tied_ballot in H. destruct (rk b) as [|g r] eqn:Erk; [discriminate|].
+  destruct (forallb (fun s => Nat.eqb (length s) 1) (g :: r)) eqn:Eu; unfold ok in H; injection H as <-.
+  - apply untied_forallb in Eu. split.
+    + intros (b' & [<-|[]] & Hw & Hc). rewrite Erk in Hc. split; [exact Hw|]. destruct Hc as [Hc|Hc]; [left; exact Hc|right; split; assumption].
+    + intros (Hw & Hc). exists b. split; [left; reflexivity|]. split; [exact Hw|]. rewrite Erk.
+      destruct Hc as [Hc|[_ Hc]]; [left|right]; exact Hc.
+  - assert (Hnu : ~ untied (g :: r)).
+    { intros Hu. apply untied_forallb in Hu. congruence. }
+    pose proof (C12_expand.Qnat_pos _ (tie_divisor_pos cand (g :: r))) as Hp.
+    assert (Hw : 0 < wt b / Qnat (tie_divisor (g :: r)) <-> 0 < wt b).
+    { split; intros Hw.
+      - setoid_replace (wt b) with (wt b / Qnat (tie_divisor (g :: r)) * Qnat (tie_divisor (g :: r))) by (field; lra).
+        apply Qmult_lt_0_compat; assumption.
+      - apply Qlt_shift_div_l; [exact Hp|]. lra. }
+    split.
+    + intros (b' & Hb' & Hwb' & Hc). apply in_map_iff in Hb'. destruct Hb' as (r' & <- & Hr'). cbn [wt rk sc map] in *.
+      split; [apply Hw; exact Hwb'|]. left. destruct Hc as [Hc|[]].
+      change (In r' (expand_ranking (g :: r))) in Hr'.
+      apply (expand_ranking_spec cand) in Hr'. apply (linear_refinement_props cand) in Hr'.
+      eapply Permutation_in; [apply Permutation_sym; exact (proj2 Hr')|exact Hc].
+    + intros (Hwb & [Hc|[Hu _]]); [|contradiction].
+      assert (Hex : exists r', In r' (expand_ranking (g :: r))).
+      { destruct (expand_ranking (g :: r)) as [|r' rs] eqn:Ee; [|exists r'; left; reflexivity].
+        exfalso. pose proof (expand_ranking_length cand (g :: r)) as Hl. rewrite Ee in Hl. cbn [length] in Hl.
+        pose proof (tie_divisor_pos cand (g :: r)). lia. }
+      destruct Hex as [r' Hr'].
+      exists (mkBallot r' (wt b / Qnat (tie_divisor (g :: r))) [] (bid b) (vs b)).
+      split; [apply in_map_iff; exists r'; split; [reflexivity|exact Hr']|].
+      cbn [wt rk sc]. split; [apply Hw; exact Hwb|]. left.
+      apply (expand_ranking_spec cand) in Hr'. apply (linear_refinement_props cand) in Hr'.
+      eapply Permutation_in; [exact (proj2 Hr')|exact Hc].
+Qed.
+
+Theorem resolve_inferred_candidates : forall (p p' : profile),
+  resolve_profile_ties p = inl p' -> cands p = [] ->
+  NoDup (cands p') /\
+  forall c, In c (cands p') <->
+    exists b, In b (ballots p) /\ 0 < wt b /\
+      (In c (flat (rk b)) \/ (untied (rk b) /\ In c (map fst (sc b)))).
+Proof.
+  intros p p' Hres Hc0. split; [exact (proj2 (resolve_cands_NoDup cand ceqb ceqb_spec p p' Hres))|].
+  destruct (resolve_ok cand ceqb ceqb_spec p p' Hres) as (bss & HF & _ & Hc & _).
+  rewrite Hc0 in Hc. rewrite Hc. clear Hc Hres Hc0. intros c. rewrite cast_cands_iff.
+  induction HF as [|b e bs bss Hbe _ IH]; cbn [concat].
+  - split; intros (b & [] & _).
+  - split.
+    + intros (b' & Hb' & Hw & Hcc). apply in_app_or in Hb'. destruct Hb' as [Hb'|Hb'].
+      * exists b. split; [left; reflexivity|]. apply (expand_cast b e c Hbe). exists b'. repeat split; assumption.
+      * destruct (proj1 IH) as (b0 & Hb0 & H0); [exists b'; repeat split; assumption|].
+        exists b0. split; [right; exact Hb0|exact H0].
+    + intros (b0 & [<-|Hb0] & H0).
+      * apply (expand_cast b e c Hbe) in H0. destruct H0 as (b' & Hb' & H'). exists b'. split; [apply in_or_app; left; exact Hb'|exact H'].
+      * destruct (proj2 IH) as (b' & Hb' & H'); [exists b0; split; assumption|].
+        exists b'. split; [apply in_or_app; right; exact Hb'|exact H'].
 Qed.
 
 Theorem remove_prof_clean : forall removed cf lz (p p' : profile),
@@ -765,37 +983,46 @@ Proof.
   split; [vm_compute; reflexivity|]. intros H. vm_compute in H. discriminate H.
 Qed.
 
-(* candidates (1,2,3), ballots {1,2} x2 and 1 x1: candidate 3 has no votes, the resolved profile has
-   candidates {1,2}, the default Borda vector shrinks from (3,2,1) to (2,1) and every Borda score
-   changes; the first-place dictionary loses the key 3 *)
+(* candidates (1,2,3), ballots {1,2} x2 and 1 x1: candidate 3 has no votes.  Before the library fix
+   "resolve_profile_ties keeps the profile's candidate list" the resolved profile had the inferred
+   candidates {1,2}, the default Borda vector shrank from (3,2,1) to (2,1), every Borda score changed
+   (1: 8 -> 5, 2: 13/2 -> 4, 3: 7/2 -> no key) and first_place_votes lost the key 3: this profile
+   REFUTED score invariance.  Now the candidate list is kept and the dictionaries are the same *)
 Definition p_zero : Core.profile positive := mkProfile [pb [[1; 2]] 2; pb [[1]] 1] [1; 2; 3].
 
-Lemma resolve_scores_invariant_refuted :
-  exists (p p' : Core.profile positive),
-    Core.resolve_profile_ties positive Pos.eqb p = inl p' /\
-    Forall (fun b => Forall (@NoDup positive) (rk b)) (ballots p) /\
-    NoDup (cands p) /\
-    ~ Permutation (cands p') (cands p) /\
-    (exists d d', Core.borda_scores positive Pos.eqb p = inl d /\
+Lemma resolve_scores_zero_vote_candidate :
+  exists p' : Core.profile positive,
+    Core.resolve_profile_ties positive Pos.eqb p_zero = inl p' /\
+    cands p' = [1; 2; 3] /\
+    map rk (ballots p') = [[[1]; [2]]; [[2]; [1]]; [[1]]] /\
+    (exists d d', Core.borda_scores positive Pos.eqb p_zero = inl d /\
                   Core.borda_scores positive Pos.eqb p' = inl d' /\
-                  ~ Permutation (map fst d') (map fst d) /\
-                  exists c q q', In (c, q) d /\ In (c, q') d' /\ ~ q == q') /\
-    (exists d d', Core.first_place_votes positive Pos.eqb p = inl d /\
+                  map fst d = [1; 2; 3] /\ map fst d' = [1; 2; 3] /\
+                  Forall2 Qeq (map snd d) [8%Q; (13 # 2)%Q; (7 # 2)%Q] /\
+                  Forall2 Qeq (map snd d') [8%Q; (13 # 2)%Q; (7 # 2)%Q]) /\
+    (exists d d', Core.first_place_votes positive Pos.eqb p_zero = inl d /\
                   Core.first_place_votes positive Pos.eqb p' = inl d' /\
-                  ~ Permutation (map fst d') (map fst d)).
+                  map fst d = [1; 2; 3] /\ map fst d' = [1; 2; 3] /\
+                  Forall2 Qeq (map snd d) [2%Q; 1%Q; 0%Q] /\
+                  Forall2 Qeq (map snd d') [2%Q; 1%Q; 0%Q]).
 Proof.
-  exists p_zero. eexists. split; [vm_compute; reflexivity|]. split.
-  { constructor; [constructor; [nodup_pos|constructor]|].
-    constructor; [constructor; [nodup_pos|constructor]|constructor]. }
-  split; [nodup_pos|]. split.
-  { intros H. apply Permutation_length in H. discriminate H. }
-  split.
-  - eexists. eexists. split; [vm_compute; reflexivity|]. split; [vm_compute; reflexivity|]. split.
-    + intros H. apply Permutation_length in H. discriminate H.
-    + exists 1. eexists. eexists. split; [left; reflexivity|]. split; [right; left; reflexivity|].
-      intros H. vm_compute in H. discriminate H.
-  - eexists. eexists. split; [vm_compute; reflexivity|]. split; [vm_compute; reflexivity|].
-    intros H. apply Permutation_length in H. discriminate H.
+  eexists. split; [vm_compute; reflexivity|]. split; [reflexivity|]. split; [vm_compute; reflexivity|].
+  split; eexists; eexists; (split; [vm_compute; reflexivity|]); (split; [vm_compute; reflexivity|]);
+    (split; [reflexivity|]); (split; [reflexivity|]);
+    split; repeat (constructor; [vm_compute; reflexivity|]); constructor.
+Qed.
+
+(* an EMPTY candidate list is still re-inferred: the tied profile cannot be scored (KeyError: nobody
+   is a known candidate), the resolved one can *)
+Lemma resolve_inferred_scores :
+  exists p' d' : _,
+    Core.resolve_profile_ties positive Pos.eqb (mkProfile [pb [[1; 2]] 2; pb [[1]] 1] []) = inl p' /\
+    Permutation (cands p') [1; 2] /\
+    Core.borda_scores positive Pos.eqb (mkProfile [pb [[1; 2]] 2; pb [[1]] 1] []) = inr EKey /\
+    Core.borda_scores positive Pos.eqb p' = inl d' /\ length d' = 2%nat.
+Proof.
+  eexists. eexists. split; [vm_compute; reflexivity|]. split; [apply perm_swap|].
+  split; [vm_compute; reflexivity|]. split; [vm_compute; reflexivity|reflexivity].
 Qed.
 
 (* add_missing_ballot: an unlisted candidate of the list gains Borda points (the mean of the
